@@ -29,6 +29,8 @@ theorem msgFromOctets_ne_panic (cfg : Upd.Cfg) (bs : Bytes) : msgFromOctets cfg 
       cases h : Notif.fromOctets bs <;> simp_all
     · have := Rc.Thm.C03.keepalive_total bs
       cases h : Notif.kaFromOctets bs <;> simp_all
+    · have := Rc.Thm.C03.rr_total bs
+      cases h : Notif.rrFromOctets bs <;> simp_all
     · simp
 
 /-- what `msgFromOctets` returns is what the per-type decoder accepted -/
@@ -45,6 +47,7 @@ theorem msgFromOctets_open {cfg : Upd.Cfg} {bs m : Bytes} (h : msgFromOctets cfg
     · cases ho : Upd.parseUpdate cfg bs <;> simp_all
     · cases ho : Notif.fromOctets bs <;> simp_all
     · cases ho : Notif.kaFromOctets bs <;> simp_all
+    · cases ho : Notif.rrFromOctets bs <;> simp_all
     · simp at h
 
 theorem msgFromOctets_notification {cfg : Upd.Cfg} {bs m : Bytes}
@@ -60,6 +63,7 @@ theorem msgFromOctets_notification {cfg : Upd.Cfg} {bs m : Bytes}
     · cases ho : Upd.parseUpdate cfg bs <;> simp_all
     · cases ho : Notif.fromOctets bs <;> simp_all
     · cases ho : Notif.kaFromOctets bs <;> simp_all
+    · cases ho : Notif.rrFromOctets bs <;> simp_all
     · simp at h
 
 /-- `identifier()[0..4].try_into().unwrap()` cannot fail once `identifier()` did not -/
@@ -92,6 +96,7 @@ theorem toWire_ne_panic (sc : SessCfg) (bs : Bytes) (m : BgpMsg) (h : msgFromOct
   cases m with
   | update u => simp [toWire]
   | keepalive k => simp [toWire]
+  | routeRefresh r => simp [toWire]
   | «open» o =>
     have ho := msgFromOctets_open h
     have hacc := Rc.Thm.C03.open_accessors_total bs o ho
